@@ -223,10 +223,23 @@ fn run_execs(n: usize, execs: &[Vec<PSem>], st: &mut Stats) -> Result<(), Violat
 }
 
 fn run_execs_with(n: usize, execs: &[Vec<PSem>], flags: u8, iterations: u32, hs: Option<u64>, st: &mut Stats) -> Result<(), Violation> {
+    run_execs_ids(n, execs, &[], flags, iterations, hs, st)
+}
+
+/// `ids[k]` = statement the k-th execution addresses (empty: all address statement 1); with ids, a
+/// second statement of the same shape is prepared next to the first
+#[allow(clippy::too_many_arguments)]
+fn run_execs_ids(n: usize, execs: &[Vec<PSem>], ids: &[u32], flags: u8, iterations: u32, hs: Option<u64>, st: &mut Stats) -> Result<(), Violation> {
     let mut cmds = vec![ClientCmd::new(with_byte(COM_STMT_PREPARE, format!("id=1 p={}", n).as_bytes()))];
     let mut expected = vec![auth_cb(), Cb::Prepare(format!("id=1 p={}", n))];
+    if !ids.is_empty() {
+        cmds.push(ClientCmd::new(with_byte(COM_STMT_PREPARE, format!("id=2 p={}", n).as_bytes())));
+        expected.push(Cb::Prepare(format!("id=2 p={}", n)));
+    }
+    let first_exec = expected.len();
     let mut exp_conv: Vec<ConvRes> = Vec::new();
-    for e in execs {
+    for (k, e) in execs.iter().enumerate() {
+        let sid = ids.get(k).copied().unwrap_or(1);
         assert_eq!(e.len(), n);
         let ps: Vec<ExecParam> = e
             .iter()
@@ -237,9 +250,9 @@ fn run_execs_with(n: usize, execs: &[Vec<PSem>], flags: u8, iterations: u32, hs:
                 long: false,
             })
             .collect();
-        cmds.push(ClientCmd::new(cmd_execute(1, flags, iterations, &exec_block(&ps, true))));
+        cmds.push(ClientCmd::new(cmd_execute(sid, flags, iterations, &exec_block(&ps, true))));
         expected.push(Cb::Execute {
-            id: 1,
+            id: sid,
             params: e.iter().map(|p| (p.ty(), p.expect_raw())).collect(),
         });
         exp_conv.extend(e.iter().map(|p| p.expect_conv()));
@@ -263,14 +276,14 @@ fn run_execs_with(n: usize, execs: &[Vec<PSem>], flags: u8, iterations: u32, hs:
     for (k, (g, e)) in o.log.iter().map(|x| &x.1).zip(expected.iter()).enumerate() {
         if let (Cb::Execute { params: gp, .. }, Cb::Execute { params: ep, .. }) = (g, e) {
             if gp.len() != ep.len() {
-                return Err(Violation::new("param-count", format!("execution {} (callback {}): the shim saw {} parameters, the statement declares {}", k - 2, k, gp.len(), ep.len())));
+                return Err(Violation::new("param-count", format!("execution {} (callback {}): the shim saw {} parameters, the statement declares {}", k - first_exec, k, gp.len(), ep.len())));
             }
             for (i, (a, b)) in gp.iter().zip(ep.iter()).enumerate() {
                 if a != b {
                     let key = if a.0 != b.0 { "param-type-differs" } else { "raw-value-differs" };
                     return Err(Violation::new(
                         format!("{}:{:#04x}", key, b.0),
-                        format!("execution {} parameter {} of {}: the shim saw {:?}, the client bound {:?}", k - 2, i, ep.len(), a, b).chars().take(400).collect::<String>(),
+                        format!("execution {} parameter {} of {}: the shim saw {:?}, the client bound {:?}", k - first_exec, i, ep.len(), a, b).chars().take(400).collect::<String>(),
                     ));
                 }
             }
@@ -548,6 +561,14 @@ impl Rebinds {
                 let d = digits(idx, &[n, n, n]);
                 d.iter().map(|x| vec![(INT_TYPES[(*x / 2) as usize], x % 2 == 1)]).collect()
             }
+            4 => {
+                // statement 1 binds T1, statement 2 binds T2, statement 1 re-binds T2, statement 2
+                // re-binds T1: each must be decoded with the table its own execution carries
+                let n = ALL_PARAM_TYPES.len() as u64 * 2;
+                let d = digits(idx, &[n, n]);
+                let t = |x: u64| vec![(ALL_PARAM_TYPES[(x / 2) as usize], x % 2 == 1)];
+                vec![t(d[0]), t(d[1]), t(d[1]), t(d[0])]
+            }
             _ => {
                 let n = ALL_PARAM_TYPES.len() as u64 * 2;
                 let d = digits(idx, &[n, n, n, n]);
@@ -562,13 +583,13 @@ impl Family for Rebinds {
         crate::engine::rot(idx)
     }
     fn name(&self) -> String {
-        ["rebinds-one-parameter-all-type-pairs", "rebinds-two-parameters-integer-tables", "rebinds-one-parameter-integer-triples", "rebinds-two-parameters-all-type-tables"][self.mode as usize].into()
+        ["rebinds-one-parameter-all-type-pairs", "rebinds-two-parameters-integer-tables", "rebinds-one-parameter-integer-triples", "rebinds-two-parameters-all-type-tables", "rebinds-alternating-between-two-statements"][self.mode as usize].into()
     }
     fn len(&self) -> u64 {
         let a = ALL_PARAM_TYPES.len() as u64 * 2;
         let i = INT_TYPES.len() as u64 * 2;
         match self.mode {
-            0 => a * a,
+            0 | 4 => a * a,
             1 => i * i * i * i,
             2 => i * i * i,
             _ => a * a * a * a,
@@ -582,6 +603,9 @@ impl Family for Rebinds {
             st.bump("rebinds_changing_only_flags");
         }
         let execs: Vec<Vec<PSem>> = t.iter().enumerate().map(|(k, tab)| tab.iter().enumerate().map(|(i, (ty, u))| sample_of(*ty, *u, 3 * k + i)).collect()).collect();
+        if self.mode == 4 {
+            return run_execs_ids(1, &execs, &[1, 2, 1, 2], 0, 1, None, st);
+        }
         run_execs(t[0].len(), &execs, st)
     }
     fn describe(&self, idx: u64) -> J {
@@ -741,6 +765,7 @@ pub fn build(quick: bool) -> Check {
         Box::new(Rebinds { mode: 0 }),
         Box::new(Rebinds { mode: 1 }),
         Box::new(Rebinds { mode: 2 }),
+        Box::new(Rebinds { mode: 4 }),
         Box::new(Bitmaps {
             max_all: if quick { 8 } else { 12 },
             big: if quick { vec![63, 64, 65, 255, 256, 300, 65529, 65535] } else { vec![63, 64, 65, 255, 256, 300, 4096, 32767, 32768, 65527, 65528, 65529, 65530, 65534, 65535] },
@@ -754,7 +779,7 @@ pub fn build(quick: bool) -> Check {
     Check {
         id: "C08",
         level: "model_checking",
-        rule: "COM_STMT_EXECUTE parameter blocks built from semantic values by the independent encoder and run through the real run_on; the shim records (type, raw inner value) and applies the documented Into<T> for the corresponding Rust type under catch_unwind. Domains: TINY, SHORT, YEAR exhaustive (signed and unsigned); LONG/INT24/LONGLONG over every 2^k, 2^k+-1 and the bounds; FLOAT/DOUBLE lattices incl. subnormals and infinities; byte strings of every length 0..300 and the length-class edges for all 14 string-like type codes, 65535..65537 (and around 2^24 in thorough); every legal length form of DATE/DATETIME/TIMESTAMP (0,4,7,11; DATE with a time part raw only) and TIME (0,8,12) over boundary calendar values, every month with its first/28th/last days in five years, every hour x five day counts, microseconds of every decimal shape; negative TIME raw only; all 26 type codes (MYSQL_TYPE_NULL among them) x unsigned in four position classes next to every other type; consecutive executions of one statement binding every ordered pair of (type, unsigned) tables (one parameter: all 52^2; two parameters: all 12^4 over the integer codes, thorough: all 52^4 over every code; triples 12^3), values with the top bit set; parameter counts 0..17, 63, 64, 65, 255, 256, 300, 65529, 65535 (thorough: more around 2^15 and 2^16) with all 2^n NULL bitmaps for n <= 12 (8 in quick) and structured ones above; inline executions that follow an execution fed by 0..1.2 MB of long data; every value of the flags byte x iteration counts {0,1,2,2^32-1} x 5 handshake variants (among them one that mentions every capability the server did not offer). Oracle: exactly n parameters, type = bound code, raw value = encoded value, conversion = encoded value (zero dates and negative TIME have no chrono/Duration form and are checked raw).".into(),
+        rule: "COM_STMT_EXECUTE parameter blocks built from semantic values by the independent encoder and run through the real run_on; the shim records (type, raw inner value) and applies the documented Into<T> for the corresponding Rust type under catch_unwind. Domains: TINY, SHORT, YEAR exhaustive (signed and unsigned); LONG/INT24/LONGLONG over every 2^k, 2^k+-1 and the bounds; FLOAT/DOUBLE lattices incl. subnormals and infinities; byte strings of every length 0..300 and the length-class edges for all 14 string-like type codes, 65535..65537 (and around 2^24 in thorough); every legal length form of DATE/DATETIME/TIMESTAMP (0,4,7,11; DATE with a time part raw only) and TIME (0,8,12) over boundary calendar values, every month with its first/28th/last days in five years, every hour x five day counts, microseconds of every decimal shape; negative TIME raw only; all 26 type codes (MYSQL_TYPE_NULL among them) x unsigned in four position classes next to every other type; consecutive executions of one statement binding every ordered pair of (type, unsigned) tables (one parameter: all 52^2, and all 52^2 with the executions alternating between two statements of the same shape - 1:T1, 2:T2, 1:T2, 2:T1; two parameters: all 12^4 over the integer codes, thorough: all 52^4 over every code; triples 12^3), values with the top bit set; parameter counts 0..17, 63, 64, 65, 255, 256, 300, 65529, 65535 (thorough: more around 2^15 and 2^16) with all 2^n NULL bitmaps for n <= 12 (8 in quick) and structured ones above; inline executions that follow an execution fed by 0..1.2 MB of long data; every value of the flags byte x iteration counts {0,1,2,2^32-1} x 5 handshake variants (among them one that mentions every capability the server did not offer). Oracle: exactly n parameters, type = bound code, raw value = encoded value, conversion = encoded value (zero dates and negative TIME have no chrono/Duration form and are checked raw).".into(),
         assumptions: vec!["wider integer, float and string domains are covered at lattices".into()],
         bounds: json!({"all_bitmaps_up_to_params": if quick {8} else {12}}),
         exhaustive: true,
